@@ -91,6 +91,15 @@ fn make_input(b: &Base, seed: u64, scn: &Value) -> Vec<u8> {
             }
             v
         }
+        "insert" => {
+            // one foreign character at position n of the valid text (blank, tab, line ends, '=', NUL, non-ASCII, url-safe)
+            let specials: [&str; 9] = [" ", "\t", "\n", "\r", "=", "\0", "\u{e9}", "-", "  "];
+            let mut v = valid.clone();
+            let pos = std::cmp::min(n, v.len());
+            let ins = specials[(k % 9) as usize].as_bytes();
+            v.splice(pos..pos, ins.iter().cloned());
+            v
+        }
         "lenfield" => {
             // hostile length field in the first record after the header
             let h = match surface {
